@@ -37,15 +37,19 @@ def build(ctx):
     import units.ord as ordu
     o = ordu.ord_parts(ctx)
     ar = drvu.approot_src(ctx, ['type Error', 'fn run_acb_app_to_delta_models', 'struct AllCumulativeCapitalGains', 'fn get_cumulative_capital_gains',
-                                'struct AppRenderResult', 'fn run_acb_app_to_render_model'])
+                                'struct AppRenderResult', 'fn run_acb_app_to_render_model', 'fn write_render_result', 'fn run_acb_app_to_writer'])
     ar.ext_fn('get_cumulative_capital_gains', why='verified in unit agg; its result is left arbitrary here')
     ar.replace("\nstruct AllCumulativeCapitalGains", "\npub struct AllCumulativeCapitalGains", 'R14')
     ar.replace("\nfn get_cumulative_capital_gains", "\npub fn get_cumulative_capital_gains", 'R14')
     ar.replace("deltas_results_by_sec.into_iter().collect();", "hole_map_into_vec(deltas_results_by_sec);", 'H')
+    ar.replace("let mut secs: Vec<Security> = sec_render_tables.keys().cloned().collect();", "let mut secs: Vec<Security> = hole_table_keys(sec_render_tables);", 'H')
+    ar.sub(r'(?s)println!\(\s*"\\n\[!\] There are errors for the following securities: \{\}",\s*secs_with_errors\.join\(", "\)\s*\);', 'crate::tracing::info!("errors");', 'R3', required=True)
+    om = Src(ctx, 'app/outfmt/model.rs').cut_tests().standard()
+    om.sub(r'(?ms)^use [^;]*;\n', '', 'select')
     ar.replace("let mut deltas_copy = deltas.iter().cloned().collect();", "let mut deltas_copy = hole_clone_deltas(deltas);", 'H')
     app_use = (drvu.APP_USE + "use crate::stdx::*;\nuse crate::portfolio::*;\nuse crate::portfolio::bookkeeping::*;\n"
                "use crate::portfolio::render::{render_aggregate_capital_gains, render_tx_table_model, CostsTables, RenderTable};\n")
-    app = mod('app', mod('approot', app_use + ar.text()))
+    app = mod('app', mod('outfmt', mod('model', "use crate::portfolio::render::RenderTable;\n" + om.text())) + mod('approot', app_use + "use crate::app::outfmt::model::{AcbWriter, OutputType};\n" + ar.text()))
     ustubs = open(os.path.join(os.path.dirname(os.path.dirname(os.path.abspath(__file__))), 'shim', 'util_stubs.rs')).read()
     render_use = "use crate::portfolio::{CumulativeCapitalGains, TxDelta};\nuse crate::portfolio::bookkeeping::Costs;\n"
     head = shim('base', 'std').replace('verus! {\n/// Trusted contracts for std', fxu.MACROS + 'verus! {\n/// Trusted contracts for std', 1)
